@@ -69,6 +69,9 @@ x.z                  { return 4; }
 (?i:[a-c]+)"1"       { return 5; }
 (?-i:Q)(?i:q)        { return 6; }
 (?i:k(?-i:L)m)       { return 7; }
+(?i:r){3}            { return 8; }
+(?i:st){2,3}"!"      { return 9; }
+u(?i:v){2,}w         { return 10; }
 %%
 ''',
  'caseless': r'''
@@ -79,6 +82,9 @@ begin|end       { return 1; }
 [[:upper:]]"_"  { return 3; }
 [^a-z\n]        { return 4; }
 "Mixed"         { return 5; }
+g{2}k           { return 6; }
+(mn){2,3}"?"    { return 7; }
+q{2,}"!"        { return 8; }
 %%
 ''',
  'escapes': r'''
